@@ -155,6 +155,13 @@ Qed.
 (* ------------------------------------------------------------------ accepts_iff_documented *)
 Definition shape_nonneg (s : shape) : Prop := Forall (fun n => 0 <= n) s.
 
+Ltac eval_streq :=
+  repeat match goal with |- context [String.eqb ?a ?b] =>
+    let v := eval vm_compute in (String.eqb a b) in change (String.eqb a b) with v end.
+
+Lemma acc_iff r s : accepts_shape r s = Ok <-> accepts_shape0 r s = Ok /\ empty_guard r s = false.
+Proof. unfold accepts_shape. destruct (accepts_shape0 r s), (empty_guard r s); intuition discriminate. Qed.
+
 Lemma vertices_accepts s :
   match check_array_shape (v_dims vertices_cfg) (v_shape_m1 vertices_cfg) (v_length vertices_cfg) s with
   | Ok => match check_format_input_vertices (IArray s []) with
@@ -173,13 +180,48 @@ Proof.
     cbn. destruct (m <? 2) eqn:Hm'; [lia|reflexivity].
 Qed.
 
-Ltac row_vec := unfold accepts_shape; cbn [s_val v_dims v_shape_m1 v_length d_shape];
-  rewrite cas_ok_iff, cas_vec, doc_vec; tauto.
-Ltac row_mat := unfold accepts_shape; cbn [s_val v_dims v_shape_m1 v_length d_shape];
-  rewrite cas_ok_iff, cas_mat, doc_mat; tauto.
+Lemma size_rows m n : size [m; n] = m * n.
+Proof. unfold size. simpl. lia. Qed.
 
-Lemma nonneg_rows m n : shape_nonneg [m; n] -> empty_rows [m; n] = false -> 1 <= m.
-Proof. intros H E. inversion H; subst. simpl in E. lia. Qed.
+(* the three situations of a "rows" attribute without a lower bound in the shape check *)
+Lemma vecpath_cases n s : shape_nonneg s -> 1 <= n ->
+  (cas_spec [1; 2] (Some n) None s = false /\ in_doc (DVecOrPath n) s = false) \/
+  (s = [0; n] /\ cas_spec [1; 2] (Some n) None s = true /\ in_doc (DVecOrPath n) s = false) \/
+  (cas_spec [1; 2] (Some n) None s = true /\ in_doc (DVecOrPath n) s = true /\ (size s =? 0) = false /\
+   empty_rows s = false).
+Proof.
+  intros Hs Hn. destruct (cas_spec [1; 2] (Some n) None s) eqn:E.
+  - apply cas_vecpath in E. destruct E as [->|[m ->]].
+    + right. right. repeat split; [apply doc_vecpath; now left|unfold size; simpl; lia].
+    + inversion Hs as [|? ? Hm _]; subst. destruct (Z.eq_dec m 0) as [->|Hm0].
+      * right. left. repeat split.
+      * right. right. repeat split; [apply doc_vecpath; right; exists m; split; [lia|reflexivity]| |simpl; lia].
+        rewrite size_rows. apply Z.eqb_neq. nia.
+  - left. split; [reflexivity|]. destruct (in_doc (DVecOrPath n) s) eqn:E'; [|reflexivity].
+    apply doc_vecpath in E'.
+    assert (cas_spec [1; 2] (Some n) None s = true) by (apply cas_vecpath; destruct E' as [->|[m [_ ->]]]; eauto).
+    congruence.
+Qed.
+
+Lemma rows1_cases n s : shape_nonneg s ->
+  (cas_spec [2] (Some n) None s = false /\ in_doc (DRows 1 n) s = false) \/
+  (s = [0; n] /\ cas_spec [2] (Some n) None s = true /\ in_doc (DRows 1 n) s = false) \/
+  (exists m t, 1 <= m /\ s = m :: t /\ cas_spec [2] (Some n) None s = true /\ in_doc (DRows 1 n) s = true /\
+   empty_rows s = false).
+Proof.
+  intros Hs. destruct (cas_spec [2] (Some n) None s) eqn:E.
+  - apply cas_rows in E. destruct E as [m ->].
+    inversion Hs as [|? ? Hm _]; subst. destruct (Z.eq_dec m 0) as [->|Hm0].
+    + right. left. repeat split.
+    + right. right. exists m, [n]. repeat split; [lia| |simpl; lia]. apply doc_rows. exists m. split; [lia|reflexivity].
+  - left. split; [reflexivity|]. destruct (in_doc (DRows 1 n) s) eqn:E'; [|reflexivity].
+    apply doc_rows in E'. destruct E' as [m [_ ->]].
+    assert (cas_spec [2] (Some n) None [m; n] = true) by (apply cas_rows; eauto). congruence.
+Qed.
+
+Ltac row_plain L1 L2 := rewrite acc_iff; unfold accepts_shape0, empty_guard;
+  cbn [s_val s_class v_dims v_shape_m1 v_length v_reshape d_shape]; eval_streq; cbn [andb orb];
+  rewrite cas_ok_iff, L1, L2; intuition.
 
 Lemma accepts_iff_documented_lemma : forall d r s,
   In d doc_table -> find_setter (d_class d) (d_attr d) = Some r -> shape_nonneg s ->
@@ -188,34 +230,49 @@ Lemma accepts_iff_documented_lemma : forall d r s,
 Proof.
   intros d r s Hin Hf Hs Hgap. simpl in Hin.
   repeat (destruct Hin as [<-|Hin]; [vm_compute in Hf; inversion Hf; subst r; clear Hf|]); try contradiction.
-  - (* position *) unfold accepts_shape; cbn [s_val v_dims v_shape_m1 v_length d_shape].
-    rewrite cas_ok_iff, cas_vecpath, doc_vecpath. cbn [gap_row d_shape andb] in Hgap.
-    split; intros [H|[m H]]; [now left| |now left|].
-    + subst s. right. exists m. split; [|reflexivity]. now apply (nonneg_rows m 3).
-    + right. exists m. tauto.
-  - (* position@init *) unfold accepts_shape; cbn [s_val v_dims v_shape_m1 v_length d_shape].
-    rewrite cas_ok_iff, cas_vecpath, doc_vecpath. cbn [gap_row d_shape andb] in Hgap.
-    split; intros [H|[m H]]; [now left| |now left|].
-    + subst s. right. exists m. split; [|reflexivity]. now apply (nonneg_rows m 3).
-    + right. exists m. tauto.
-  - row_vec.
-  - row_vec.
-  - (* pixel *) unfold accepts_shape; cbn [s_val v_dims v_shape_m1 v_length d_shape].
-    rewrite cas_ok_iff. apply cas_grid.
-  - row_vec.
-  - row_vec.
-  - (* CylinderSegment *) unfold accepts_shape; cbn [s_val d_shape]. unfold cylseg_cfg.
-    cbn [v_dims v_shape_m1 v_length]. rewrite cas_ok_iff, cas_vec, doc_vec; tauto.
-  - row_mat.
-  - row_mat.
-  - (* Polyline *) unfold accepts_shape; cbn [s_val d_shape]. rewrite vertices_accepts, doc_rows. tauto.
-  - (* TriangularMesh vertices *) unfold accepts_shape; cbn [s_val v_dims v_shape_m1 v_length d_shape].
-    rewrite cas_ok_iff, cas_rows, doc_rows. cbn in Hgap.
-    split; intros [m H]; exists m; [|tauto]. subst s. split; [|reflexivity]. now apply (nonneg_rows m 3).
-  - (* TriangularMesh faces *) unfold accepts_shape; cbn [s_val v_dims v_shape_m1 v_length d_shape].
-    rewrite cas_ok_iff, cas_rows, doc_rows. cbn in Hgap.
-    split; intros [m H]; exists m; [|tauto]. subst s. split; [|reflexivity]. now apply (nonneg_rows m 3).
-  - row_vec.
+  - (* position *) rewrite acc_iff; unfold accepts_shape0, empty_guard;
+      cbn [s_val s_class v_dims v_shape_m1 v_length v_reshape d_shape]; eval_streq; cbn [andb orb].
+    rewrite cas_ok_iff, orb_false_r. cbn [gap_row d_shape] in Hgap.
+    destruct (vecpath_cases 3 s Hs ltac:(lia)) as [[-> ->]|[[-> [-> ->]]|[-> [-> [-> _]]]]].
+    + intuition discriminate.
+    + destruct reshape_rejects_empty; simpl in *; intuition discriminate.
+    + rewrite andb_false_r. intuition.
+  - (* position@init *) rewrite acc_iff; unfold accepts_shape0, empty_guard;
+      cbn [s_val s_class v_dims v_shape_m1 v_length v_reshape d_shape]; eval_streq; cbn [andb orb].
+    rewrite cas_ok_iff, orb_false_r. cbn [gap_row d_shape] in Hgap.
+    destruct (vecpath_cases 3 s Hs ltac:(lia)) as [[-> ->]|[[-> [-> ->]]|[-> [-> [-> _]]]]].
+    + intuition discriminate.
+    + destruct reshape_rejects_empty; simpl in *; intuition discriminate.
+    + rewrite andb_false_r. intuition.
+  - row_plain cas_vec doc_vec.
+  - row_plain cas_vec doc_vec.
+  - (* pixel *) rewrite acc_iff; unfold accepts_shape0, empty_guard;
+      cbn [s_val s_class v_dims v_shape_m1 v_length v_reshape d_shape]; eval_streq; cbn [andb orb].
+    rewrite cas_ok_iff, cas_grid. intuition.
+  - row_plain cas_vec doc_vec.
+  - row_plain cas_vec doc_vec.
+  - (* CylinderSegment *) rewrite acc_iff; unfold accepts_shape0, empty_guard, cylseg_cfg;
+      cbn [s_val s_class v_dims v_shape_m1 v_length v_reshape d_shape]; eval_streq; cbn [andb orb].
+    rewrite cas_ok_iff, cas_vec, doc_vec. intuition.
+  - row_plain cas_mat doc_mat.
+  - row_plain cas_mat doc_mat.
+  - (* Polyline *) rewrite acc_iff; unfold accepts_shape0, empty_guard; cbn [s_val s_class d_shape]; eval_streq;
+      cbn [andb orb]. rewrite vertices_accepts, doc_rows. intuition.
+  - (* TriangularMesh vertices *) rewrite acc_iff; unfold accepts_shape0, empty_guard;
+      cbn [s_val s_class v_dims v_shape_m1 v_length v_reshape d_shape]; eval_streq; cbn [andb orb].
+    rewrite cas_ok_iff. cbn [gap_row d_shape] in Hgap. simpl (1 =? 1) in Hgap. cbn [andb] in Hgap.
+    destruct (rows1_cases 3 s Hs) as [[-> ->]|[[-> [-> ->]]|[m [t [Hm [-> [-> [-> _]]]]]]]].
+    + intuition discriminate.
+    + destruct mesh_rejects_empty; simpl in *; intuition discriminate.
+    + replace (m =? 0) with false by lia. rewrite andb_false_r. intuition.
+  - (* TriangularMesh faces *) rewrite acc_iff; unfold accepts_shape0, empty_guard;
+      cbn [s_val s_class v_dims v_shape_m1 v_length v_reshape d_shape]; eval_streq; cbn [andb orb].
+    rewrite cas_ok_iff. cbn [gap_row d_shape] in Hgap. simpl (1 =? 1) in Hgap. cbn [andb] in Hgap.
+    destruct (rows1_cases 3 s Hs) as [[-> ->]|[[-> [-> ->]]|[m [t [Hm [-> [-> [-> _]]]]]]]].
+    + intuition discriminate.
+    + destruct mesh_rejects_empty; simpl in *; intuition discriminate.
+    + replace (m =? 0) with false by lia. rewrite andb_false_r. intuition.
+  - row_plain cas_vec doc_vec.
 Qed.
 
 (* every row of the documentation table has a translated setter row (the theorem above is not vacuous) *)
@@ -223,14 +280,15 @@ Lemma doc_rows_have_setters :
   forallb (fun d => match find_setter (d_class d) (d_attr d) with Some _ => true | None => false end) doc_table = true.
 Proof. vm_compute. reflexivity. Qed.
 
-(* the gap, machine-checked: an EMPTY path / vertex / face array is accepted although not documented *)
+(* the gap, machine-checked: on every row that still is a gap row (no guard in the translated code) an EMPTY path /
+   vertex / face array is accepted although not documented *)
 Lemma accepts_empty_rows_refuted_lemma :
   forall d, In d doc_table -> gap_row d = true ->
   exists r, find_setter (d_class d) (d_attr d) = Some r /\ shape_nonneg [0; 3] /\
             accepts_shape r [0; 3] = Ok /\ in_doc (d_shape d) [0; 3] = false.
 Proof.
   intros d Hin Hg. simpl in Hin.
-  repeat (destruct Hin as [<-|Hin]; [try discriminate Hg|]); try contradiction;
+  repeat (destruct Hin as [<-|Hin]; [try (vm_compute in Hg; discriminate Hg)|]); try contradiction;
     (eexists; split; [vm_compute; reflexivity|split; [repeat constructor; lia|split; vm_compute; reflexivity]]).
 Qed.
 
@@ -369,6 +427,13 @@ Lemma rank_pairs_cover :
 Proof. vm_compute. reflexivity. Qed.
 
 (* accepted values are stored unchanged: same entries, same shape (position: reshaped to (-1,3)) *)
+Lemma post_guard_stored r v x : post_guard r v = Stored x -> v = Stored x.
+Proof.
+  unfold post_guard. destruct v as [[[s vals]|]| |]; try (intros H; exact H).
+  destruct (row_is "Tetrahedron" "vertices" r && tetra_rejects_coplanar && coplanar4 vals); [discriminate|].
+  destruct (String.eqb (s_class r) "TriangularMesh" && mesh_rejects_empty && _); [discriminate|]. intros H; exact H.
+Qed.
+
 Lemma stored_faithfully_lemma : forall r s vals s' vals',
   assign_vec r (IArray s vals) = Stored (Some (s', vals')) ->
   vals' = vals /\ (s' = s \/ s' = [size s / 3; 3]).
@@ -377,7 +442,8 @@ Proof.
   assert (H' : match run_validator (s_val r) (IArray s vals) with
                | Stored None => if s_post_uses r then Crashed else Stored None
                | x => x end = Stored (Some (s', vals'))).
-  { unfold assign_vec in H. destruct (String.eqb (s_attr r) "position@init"); [|exact H].
+  { unfold assign_vec in H. apply post_guard_stored in H.
+    destruct (String.eqb (s_attr r) "position@init"); [|exact H].
     unfold init_pad in H.
     destruct (match run_validator (s_val r) (IArray s vals) with
               | Stored None => if s_post_uses r then Crashed else Stored None | x => x end)
@@ -388,20 +454,23 @@ Proof.
   - unfold check_format_input_vector. rewrite andb_false_r.
     destruct (check_array_shape _ _ _ s); try discriminate.
     destruct (v_reshape c).
-    + unfold reshape_rows3. destruct (size s mod 3 =? 0); [|discriminate].
+    + destruct (reshape_rejects_empty && _); [discriminate|].
+      unfold reshape_rows3. destruct (size s mod 3 =? 0); [|discriminate].
       intros H. inversion H. tauto.
     + destruct (v_forbid_negative0 c && _); [discriminate|]. intros H. inversion H. tauto.
   - unfold check_format_input_vertices, check_format_input_vector. rewrite andb_false_r.
     destruct (check_array_shape _ _ _ s); try discriminate.
     destruct (v_reshape vertices_cfg).
-    + unfold reshape_rows3. destruct (size s mod 3 =? 0); [|discriminate].
+    + destruct (reshape_rejects_empty && _); [discriminate|].
+      unfold reshape_rows3. destruct (size s mod 3 =? 0); [|discriminate].
       destruct (shape_first _); [|discriminate]. destruct (_ <? _); [discriminate|]. intros H. inversion H. tauto.
     + destruct (v_forbid_negative0 vertices_cfg && _); [discriminate|].
       destruct (shape_first s); [|discriminate]. destruct (_ <? _); [discriminate|]. intros H. inversion H. tauto.
   - unfold check_format_input_cylinder_segment, check_format_input_vector. rewrite andb_false_r.
     destruct (check_array_shape _ _ _ s); try discriminate.
     destruct (v_reshape cylseg_cfg).
-    + unfold reshape_rows3. destruct (size s mod 3 =? 0); [|discriminate].
+    + destruct (reshape_rejects_empty && _); [discriminate|].
+      unfold reshape_rows3. destruct (size s mod 3 =? 0); [|discriminate].
       destruct vals as [|a [|b [|c [|d [|e [|f t]]]]]]; try discriminate.
       destruct (cylseg_bad _ _ _ _ _); [discriminate|]. intros H. inversion H. tauto.
     + destruct (v_forbid_negative0 cylseg_cfg && _); [discriminate|].
@@ -413,7 +482,7 @@ Qed.
 Lemma vec_arr c s vals : check_format_input_vector c (IArray s vals) =
   match check_array_shape (v_dims c) (v_shape_m1 c) (v_length c) s with
   | Bad => Rejected | Crash => Crashed
-  | Ok => if v_reshape c then reshape_rows3 s vals
+  | Ok => if v_reshape c then (if reshape_rejects_empty && (size s =? 0) then Rejected else reshape_rows3 s vals)
           else if v_forbid_negative0 c && existsb (fun x => Qleb x (qz 0)) vals then Rejected
           else Stored (Some (s, vals)) end.
 Proof. unfold check_format_input_vector. rewrite andb_false_r. reflexivity. Qed.
@@ -434,20 +503,6 @@ Proof. apply eq_true_iff_eq. rewrite cas_mat, doc_mat. tauto. Qed.
 Lemma cas_grid_b n s :
   cas_spec [1; 2; 3; 4; 5; 6; 7; 8; 9; 10; 11; 12; 13; 14; 15; 16; 17; 18; 19] (Some n) None s = in_doc (DGrid n) s.
 Proof. apply eq_true_iff_eq. apply cas_grid. Qed.
-Lemma cas_vecpath_b n s : shape_nonneg s -> empty_rows s = false ->
-  cas_spec [1; 2] (Some n) None s = in_doc (DVecOrPath n) s.
-Proof.
-  intros Hs He. apply eq_true_iff_eq. rewrite cas_vecpath, doc_vecpath.
-  split; intros [H|[m H]]; [now left| |now left|].
-  - subst s. right. exists m. split; [|reflexivity]. now apply (nonneg_rows m n).
-  - right. exists m. tauto.
-Qed.
-Lemma cas_rows1_b n s : shape_nonneg s -> empty_rows s = false ->
-  cas_spec [2] (Some n) None s = in_doc (DRows 1 n) s.
-Proof.
-  intros Hs He. apply eq_true_iff_eq. rewrite cas_rows, doc_rows.
-  split; intros [m H]; exists m; [|tauto]. subst s. split; [|reflexivity]. now apply (nonneg_rows m n).
-Qed.
 
 Lemma vecpath_size s : in_doc (DVecOrPath 3) s = true -> (size s mod 3 =? 0) = true /\ (size s / 3 =? 0) = false.
 Proof.
@@ -475,24 +530,30 @@ Proof. vm_compute. reflexivity. Qed.
 
 Definition input_empty_rows (inp : vinput) : bool :=
   match inp with IArray s _ => empty_rows s | _ => false end.
+Definition input_value_gap (d : doc_row) (inp : vinput) : bool :=
+  match inp with IArray _ vals => value_gap d vals | _ => false end.
 
-Ltac eval_streq :=
-  repeat match goal with |- context [String.eqb ?a ?b] =>
-    let v := eval vm_compute in (String.eqb a b) in change (String.eqb a b) with v end.
+Lemma post_guard_id r v : row_is "Tetrahedron" "vertices" r = false ->
+  String.eqb (s_class r) "TriangularMesh" = false -> post_guard r v = v.
+Proof. intros H1 H2. unfold post_guard. destruct v as [[[s vals]|]| |]; try reflexivity. now rewrite H1, H2. Qed.
 
 Ltac finish_assign :=
   split; intros Hd; try discriminate Hd; try reflexivity; try (eexists; reflexivity).
+Ltac plain_row := rewrite post_guard_id by (vm_compute; reflexivity);
+  cbn [s_attr s_val run_validator s_post_uses]; eval_streq; cbn iota.
 
 (* for every documented array attribute and every well-formed input (None, not array-like, not float-convertible, or
    a float array of ANY shape with ANY rational entries): the translated assignment stores the value iff the
-   documentation allows it, and otherwise raises the library's input error -- never a foreign exception *)
+   documentation allows it, and otherwise raises the library's input error -- never a foreign exception.
+   Exclusions exist only where the translated code has no guard (flags false): empty leading axis on position / mesh
+   rows, coplanar tetrahedron vertices. *)
 Lemma assign_iff_documented_lemma : forall d r inp,
   In d doc_table -> find_setter (d_class d) (d_attr d) = Some r -> wf_vinput inp ->
-  gap_row d && input_empty_rows inp = false ->
+  gap_row d && input_empty_rows inp = false -> input_value_gap d inp = false ->
   (doc_accepts d inp = true -> exists v, assign_vec r inp = Stored v) /\
   (doc_accepts d inp = false -> assign_vec r inp = Rejected).
 Proof.
-  intros d r inp Hin Hf Hwf Hgap.
+  intros d r inp Hin Hf Hwf Hgap Hvg.
   destruct inp as [| | |s vals].
   - (* None *) rewrite (none_is_stored_lemma d r Hin Hf). simpl. destruct (d_none d); finish_assign.
   - pose proof bad_types_rejected as H. rewrite forallb_forall in H. specialize (H d Hin).
@@ -502,41 +563,53 @@ Proof.
     unfold bad_type_row_ok in H. rewrite Hf in H. simpl.
     destruct (assign_vec r INotArrayLike); try discriminate.
     destruct (assign_vec r INotFloatable); try discriminate. finish_assign.
-  - destruct Hwf as [Hs Hl]. simpl input_empty_rows in Hgap. simpl in Hin.
+  - destruct Hwf as [Hs Hl]. simpl input_empty_rows in Hgap. simpl input_value_gap in Hvg. simpl in Hin.
     repeat (destruct Hin as [<-|Hin]; [vm_compute in Hf; inversion Hf; subst r; clear Hf|]); try contradiction;
-      unfold assign_vec, doc_accepts; cbn [s_attr s_val run_validator s_post_uses d_shape d_value d_none value_ok];
-      eval_streq; cbn iota.
-    + (* position *) rewrite vec_arr. cbn [v_dims v_shape_m1 v_length v_reshape v_forbid_negative0].
-      rewrite cas_tri by reflexivity. rewrite (cas_vecpath_b 3 s Hs) by (cbn in Hgap; exact Hgap).
-      rewrite andb_true_r. destruct (in_doc (DVecOrPath 3) s) eqn:E; [|finish_assign].
-      unfold reshape_rows3. destruct (vecpath_size s E) as [-> _]. finish_assign.
-    + (* position@init *) rewrite vec_arr. cbn [v_dims v_shape_m1 v_length v_reshape v_forbid_negative0].
-      rewrite cas_tri by reflexivity. rewrite (cas_vecpath_b 3 s Hs) by (cbn in Hgap; exact Hgap).
-      rewrite andb_true_r. destruct (in_doc (DVecOrPath 3) s) eqn:E; [|finish_assign].
-      unfold reshape_rows3. destruct (vecpath_size s E) as [-> E2]. unfold init_pad. rewrite E2. finish_assign.
-    + rewrite vec_arr. cbn [v_dims v_shape_m1 v_length v_reshape v_forbid_negative0 andb].
+      unfold assign_vec, doc_accepts; cbn [d_shape d_value d_none value_ok].
+    + (* position *) plain_row. rewrite vec_arr. cbn [v_dims v_shape_m1 v_length v_reshape v_forbid_negative0].
+      rewrite cas_tri by reflexivity. rewrite andb_true_r. cbn [gap_row d_shape] in Hgap.
+      destruct (vecpath_cases 3 s Hs ltac:(lia)) as [[-> ->]|[[-> [-> ->]]|[-> [E [-> _]]]]].
+      * finish_assign.
+      * destruct reshape_rejects_empty; simpl in *; [finish_assign|discriminate].
+      * rewrite E, andb_false_r. unfold reshape_rows3. destruct (vecpath_size s E) as [-> _]. finish_assign.
+    + (* position@init *) plain_row. rewrite vec_arr. cbn [v_dims v_shape_m1 v_length v_reshape v_forbid_negative0].
+      rewrite cas_tri by reflexivity. rewrite andb_true_r. cbn [gap_row d_shape] in Hgap.
+      destruct (vecpath_cases 3 s Hs ltac:(lia)) as [[-> ->]|[[-> [-> ->]]|[-> [E [-> _]]]]].
+      * finish_assign.
+      * destruct reshape_rejects_empty; simpl in *; [finish_assign|discriminate].
+      * rewrite E, andb_false_r. unfold reshape_rows3. destruct (vecpath_size s E) as [-> E2].
+        unfold init_pad. rewrite E2. finish_assign.
+    + plain_row. rewrite vec_arr. cbn [v_dims v_shape_m1 v_length v_reshape v_forbid_negative0 andb].
       rewrite cas_tri by reflexivity. rewrite cas_vec_b, andb_true_r. destruct (in_doc (DVec 3) s); finish_assign.
-    + rewrite vec_arr. cbn [v_dims v_shape_m1 v_length v_reshape v_forbid_negative0 andb].
+    + plain_row. rewrite vec_arr. cbn [v_dims v_shape_m1 v_length v_reshape v_forbid_negative0 andb].
       rewrite cas_tri by reflexivity. rewrite cas_vec_b, andb_true_r. destruct (in_doc (DVec 3) s); finish_assign.
-    + (* pixel *) rewrite vec_arr. cbn [v_dims v_shape_m1 v_length v_reshape v_forbid_negative0 andb].
+    + (* pixel *) plain_row. rewrite vec_arr. cbn [v_dims v_shape_m1 v_length v_reshape v_forbid_negative0 andb].
       rewrite cas_tri by reflexivity. rewrite cas_grid_b, andb_true_r. destruct (in_doc (DGrid 3) s); finish_assign.
-    + (* Cuboid.dimension *) rewrite vec_arr. cbn [v_dims v_shape_m1 v_length v_reshape v_forbid_negative0 andb].
+    + (* Cuboid.dimension *) plain_row. rewrite vec_arr.
+      cbn [v_dims v_shape_m1 v_length v_reshape v_forbid_negative0 andb].
       rewrite cas_tri by reflexivity. rewrite cas_vec_b, existsb_nonpos.
       destruct (in_doc (DVec 3) s); [|finish_assign]. destruct (all_pos vals); finish_assign.
-    + (* Cylinder.dimension *) rewrite vec_arr. cbn [v_dims v_shape_m1 v_length v_reshape v_forbid_negative0 andb].
+    + (* Cylinder.dimension *) plain_row. rewrite vec_arr.
+      cbn [v_dims v_shape_m1 v_length v_reshape v_forbid_negative0 andb].
       rewrite cas_tri by reflexivity. rewrite cas_vec_b, existsb_nonpos.
       destruct (in_doc (DVec 2) s); [|finish_assign]. destruct (all_pos vals); finish_assign.
-    + (* CylinderSegment.dimension *) unfold check_format_input_cylinder_segment. rewrite vec_arr. unfold cylseg_cfg.
-      cbn [v_dims v_shape_m1 v_length v_reshape v_forbid_negative0 andb].
+    + (* CylinderSegment.dimension *) plain_row. unfold check_format_input_cylinder_segment. rewrite vec_arr.
+      unfold cylseg_cfg. cbn [v_dims v_shape_m1 v_length v_reshape v_forbid_negative0 andb].
       rewrite cas_tri by reflexivity. rewrite cas_vec_b.
       destruct (in_doc (DVec 5) s) eqn:E; [|finish_assign].
       apply doc_vec in E. subst s. destruct (vals5 vals Hl) as [a [b [c [e [f ->]]]]].
       rewrite cylseg_bad_is_not_ok. cbn [andb]. destruct (cylseg_ok [a; b; c; e; f]); finish_assign.
-    + rewrite vec_arr. cbn [v_dims v_shape_m1 v_length v_reshape v_forbid_negative0 andb].
-      rewrite cas_tri by reflexivity. rewrite cas_mat_b, andb_true_r. destruct (in_doc (DMat 4 3) s); finish_assign.
-    + rewrite vec_arr. cbn [v_dims v_shape_m1 v_length v_reshape v_forbid_negative0 andb].
+    + (* Tetrahedron.vertices: vector check, then the coplanarity guard when the setter has it *)
+      cbn [s_attr s_val run_validator s_post_uses]; eval_streq; cbn iota.
+      rewrite vec_arr. cbn [v_dims v_shape_m1 v_length v_reshape v_forbid_negative0 andb].
+      rewrite cas_tri by reflexivity. rewrite cas_mat_b.
+      destruct (in_doc (DMat 4 3) s); [|finish_assign].
+      unfold post_guard, row_is. cbn [s_class s_attr]. eval_streq. cbn [andb].
+      unfold value_gap in Hvg. cbn [d_value] in Hvg.
+      destruct tetra_rejects_coplanar, (coplanar4 vals); simpl in *; try discriminate; finish_assign.
+    + plain_row. rewrite vec_arr. cbn [v_dims v_shape_m1 v_length v_reshape v_forbid_negative0 andb].
       rewrite cas_tri by reflexivity. rewrite cas_mat_b, andb_true_r. destruct (in_doc (DMat 3 3) s); finish_assign.
-    + (* Polyline.vertices *) unfold check_format_input_vertices. rewrite vec_arr. unfold vertices_cfg.
+    + (* Polyline.vertices *) plain_row. unfold check_format_input_vertices. rewrite vec_arr. unfold vertices_cfg.
       cbn [v_dims v_shape_m1 v_length v_reshape v_forbid_negative0 andb].
       rewrite cas_tri by reflexivity. rewrite andb_true_r.
       destruct (cas_spec [2] (Some 3) None s) eqn:E.
@@ -547,12 +620,81 @@ Proof.
         { destruct (in_doc (DRows 2 3) s) eqn:E'; [|reflexivity]. apply doc_rows in E'. destruct E' as [m [_ ->]].
           assert (cas_spec [2] (Some 3) None [m; 3] = true) by (apply cas_rows; now exists m). congruence. }
         rewrite E'. finish_assign.
-    + (* TriangularMesh vertices *) rewrite vec_arr. cbn [v_dims v_shape_m1 v_length v_reshape v_forbid_negative0 andb].
-      rewrite cas_tri by reflexivity. rewrite (cas_rows1_b 3 s Hs) by (cbn in Hgap; exact Hgap).
-      rewrite andb_true_r. destruct (in_doc (DRows 1 3) s); finish_assign.
-    + (* TriangularMesh faces *) rewrite vec_arr. cbn [v_dims v_shape_m1 v_length v_reshape v_forbid_negative0 andb].
-      rewrite cas_tri by reflexivity. rewrite (cas_rows1_b 3 s Hs) by (cbn in Hgap; exact Hgap).
-      rewrite andb_true_r. destruct (in_doc (DRows 1 3) s); finish_assign.
-    + rewrite vec_arr. cbn [v_dims v_shape_m1 v_length v_reshape v_forbid_negative0 andb].
+    + (* TriangularMesh vertices *) cbn [s_attr s_val run_validator s_post_uses]; eval_streq; cbn iota.
+      rewrite vec_arr. cbn [v_dims v_shape_m1 v_length v_reshape v_forbid_negative0 andb].
+      rewrite cas_tri by reflexivity. rewrite andb_true_r.
+      cbn [gap_row d_shape] in Hgap. simpl (1 =? 1) in Hgap. cbn [andb] in Hgap.
+      unfold post_guard, row_is. cbn [s_class s_attr]. eval_streq. cbn [andb].
+      destruct (rows1_cases 3 s Hs) as [[-> ->]|[[-> [-> ->]]|[m [t [Hm [-> [-> [-> _]]]]]]]].
+      * finish_assign.
+      * destruct mesh_rejects_empty; simpl in *; [finish_assign|discriminate].
+      * replace (m =? 0) with false by lia. rewrite andb_false_r. finish_assign.
+    + (* TriangularMesh faces *) cbn [s_attr s_val run_validator s_post_uses]; eval_streq; cbn iota.
+      rewrite vec_arr. cbn [v_dims v_shape_m1 v_length v_reshape v_forbid_negative0 andb].
+      rewrite cas_tri by reflexivity. rewrite andb_true_r.
+      cbn [gap_row d_shape] in Hgap. simpl (1 =? 1) in Hgap. cbn [andb] in Hgap.
+      unfold post_guard, row_is. cbn [s_class s_attr]. eval_streq. cbn [andb].
+      destruct (rows1_cases 3 s Hs) as [[-> ->]|[[-> [-> ->]]|[m [t [Hm [-> [-> [-> _]]]]]]]].
+      * finish_assign.
+      * destruct mesh_rejects_empty; simpl in *; [finish_assign|discriminate].
+      * replace (m =? 0) with false by lia. rewrite andb_false_r. finish_assign.
+    + plain_row. rewrite vec_arr. cbn [v_dims v_shape_m1 v_length v_reshape v_forbid_negative0 andb].
       rewrite cas_tri by reflexivity. rewrite cas_vec_b, andb_true_r. destruct (in_doc (DVec 3) s); finish_assign.
 Qed.
+
+(* as long as the Tetrahedron setter has no coplanarity guard, four coplanar vertices are accepted (the field
+   computation then fails with LinAlgError in the implementation) *)
+Lemma tetra_coplanar_refuted_lemma : tetra_rejects_coplanar = false ->
+  exists r, find_setter "Tetrahedron" "vertices" = Some r /\
+    coplanar4 [0; 0; 0; 1; 0; 0; 0; 1; 0; 1; 1; 0]%Q = true /\
+    assign_vec r (IArray [4; 3] [0; 0; 0; 1; 0; 0; 0; 1; 0; 1; 1; 0]%Q)
+      = Stored (Some ([4; 3], [0; 0; 0; 1; 0; 0; 0; 1; 0; 1; 1; 0]%Q)).
+Proof.
+  intros H. eexists. split; [vm_compute; reflexivity|]. split; [vm_compute; reflexivity|].
+  unfold assign_vec, post_guard. rewrite H. vm_compute. reflexivity.
+Qed.
+
+(* ------------------------------------------------------------------ orientation *)
+(* both orientation rows (setter and constructor): None and every scipy Rotation are stored (None as one unit
+   quaternion, a single rotation as one, a stack of n as n), every other value raises the library's input error *)
+Lemma orientation_assign_lemma : forall a r inp, In a ["orientation"; "orientation@init"] ->
+  find_setter "BaseGeo" a = Some r ->
+  assign_orient r inp = if odoc_accepts inp
+                        then OStored (match inp with ORot false n => n | _ => 1 end) else ORejected.
+Proof.
+  intros a r inp Hin Hf. simpl in Hin.
+  destruct Hin as [<-|[<-|[]]]; vm_compute in Hf; inversion Hf; subst r; destruct inp as [|[|] n|]; reflexivity.
+Qed.
+
+(* ------------------------------------------------------------------ field_func *)
+Lemma validate_outs_iff outs : ~ In FoRaises outs ->
+  validate_outs outs = if forallb (fun o => match o with FoNone => true | FoArray s => shape_eqb s field_func_probe_shape
+                                            | _ => false end) outs then Ok else Bad.
+Proof.
+  induction outs as [|o t IH]; intros Hn; [reflexivity|].
+  assert (Ht : ~ In FoRaises t) by (intros H; apply Hn; now right).
+  assert (Ho : o <> FoRaises) by (intros H; apply Hn; now left).
+  simpl. destruct o as [| |s|]; simpl; try congruence.
+  - now rewrite IH.
+  - unfold field_func_probe_shape. destruct (shape_eqb s [2; 3]); simpl; [now rewrite IH|reflexivity].
+Qed.
+
+(* CustomSource.field_func: for every value whose probe calls do not raise, the translated validator accepts exactly
+   None and callables (field, observers, ...) whose B and H probes return None or an ndarray of the probe's shape;
+   everything else raises the library's input error *)
+Lemma field_func_assign_lemma : forall r inp, find_setter "BaseSource" "field_func" = Some r -> wf_finput inp ->
+  assign_func "CustomSource" r inp = if fdoc_accepts inp then Ok else Bad.
+Proof.
+  intros r inp Hf Hwf. vm_compute in Hf. inversion Hf; subst r; clear Hf.
+  unfold assign_func. cbn [s_val]. replace (str_mem "CustomSource" editable_field_func) with true by reflexivity.
+  destruct inp as [| |ok outs]; try reflexivity.
+  destruct Hwf as [Hl Hn]. unfold validate_field_func, fdoc_accepts.
+  rewrite <- Hl, firstn_all. destruct ok; [|reflexivity]. simpl negb. cbn iota. simpl andb.
+  apply validate_outs_iff. exact Hn.
+Qed.
+
+(* on every other source class the attribute is not settable: the setter raises AttributeError *)
+Lemma field_func_not_editable_lemma : forall r inp, find_setter "BaseSource" "field_func" = Some r ->
+  forallb (fun cr : string * list (string * Z) =>
+    String.eqb (fst cr) "CustomSource" || res_eqb (assign_func (fst cr) r inp) Crash) registered = true.
+Proof. intros r inp Hf. vm_compute in Hf. inversion Hf; subst r. destruct inp; vm_compute; reflexivity. Qed.
